@@ -6,7 +6,7 @@ from . import progs
 from .refmodel import Invalid, ev
 
 ALL_OPS = {
-    'map', 'parmap', 'boom', 'frag', 'batch_map', 'filter_lazy', 'filter_eager', 'slice', 'shuffle_once', 'sort',
+    'nonemap', 'map', 'parmap', 'boom', 'frag', 'batch_map', 'filter_lazy', 'filter_eager', 'slice', 'shuffle_once', 'sort',
     'shard', 'batch', 'unbatch', 'items', 'tile', 'cache_lazy', 'cache_eager', 'catch', 'copy', 'prefetch',
     'reshuffle', 'local_shuffle', 'concat', 'intersperse', 'zip', 'key_zip',
 }
@@ -17,7 +17,7 @@ PROFILES = {
     'full': ALL_OPS,
     'noraise': ALL_OPS - {'boom'},
     'deterministic': ALL_OPS - {'boom', 'reshuffle', 'local_shuffle'},
-    'indexable': {'map', 'slice', 'shuffle_once', 'sort', 'shard', 'batch', 'items', 'tile', 'cache_lazy',
+    'indexable': {'nonemap', 'map', 'slice', 'shuffle_once', 'sort', 'shard', 'batch', 'items', 'tile', 'cache_lazy',
                   'cache_eager', 'copy', 'concat', 'intersperse', 'zip', 'key_zip', 'filter_eager', 'batch_map'},
     'lazy': {'map', 'filter_lazy', 'slice', 'batch', 'unbatch', 'items', 'tile', 'cache_lazy', 'catch', 'copy',
              'concat', 'intersperse', 'zip', 'key_zip', 'frag', 'batch_map', 'prefetch1', 'local_shuffle',
@@ -51,7 +51,7 @@ def st_source(draw, ctx, n=None, kind=None, keys=None, min_n=0):
         if n is None:
             n = draw(st.integers(min_n, ctx.max_n))
         base = draw(st.permutations(progs.KEY_ALPHABET))[:n]
-        suffix = draw(st.sampled_from(['', '', str(sid)]))
+        suffix = draw(st.sampled_from(['', str(sid), '_key']))
         keys = [k + suffix for k in base]
     mode = draw(st.sampled_from([m for m in ctx.modes if m != 'wu'] or ['pickle']))
     return {'op': 'dict', 'id': sid, 'keys': list(keys), 'mode': mode}
@@ -94,7 +94,8 @@ def candidates(m, allowed):
             out.extend([op] * weight)
 
     add('map', weight=2)
-    add('parmap', not un)
+    add('nonemap', m.n >= 1)
+    add('parmap', True)
     add('boom', not un and m.n >= 1)
     add('frag', not un)
     add('batch_map', all_batches(m) and m.n >= 1 and not un)
@@ -128,6 +129,9 @@ def st_stage(draw, op, node, m, ctx, allowed, budget):
     n = m.n
     if op == 'map':
         return {'op': 'map', 'fn': draw(st.integers(0, 3)), 'in': node}
+    if op == 'nonemap':
+        mm = draw(st.integers(1, 3))
+        return {'op': 'nonemap', 'm': mm, 'r': draw(st.integers(0, mm - 1)), 'in': node}
     if op == 'parmap':
         w = draw(st.integers(1, 3))
         return {'op': 'parmap', 'fn': draw(st.integers(0, 3)), 'workers': w, 'buffer': draw(st.integers(w, 4)),
@@ -142,7 +146,8 @@ def st_stage(draw, op, node, m, ctx, allowed, budget):
         return {'op': 'batch_map', 'fn': draw(st.integers(0, 3)), 'in': node}
     if op in ('filter_lazy', 'filter_eager'):
         mm = draw(st.integers(2, 3))
-        return {'op': 'filter', 'm': mm, 'r': draw(st.integers(0, mm - 1)), 'lazy': op == 'filter_lazy', 'in': node}
+        return {'op': 'filter', 'm': mm, 'r': draw(st.integers(0, mm - 1)), 'lazy': op == 'filter_lazy',
+                'int': draw(st.booleans()), 'in': node}
     if op == 'slice':
         return {'op': 'slice', 'form': draw(st_slice_form(n, m)), 'in': node}
     if op == 'shuffle_once':
